@@ -403,6 +403,58 @@ fn run<F: MathFunction + Function<Trace = VmTrace> + fidget_core::render::Render
                             "reuse-changes-eval",
                             "step {step}: RenderHandle simplified float-slice eval {got:08x} vs fresh {want:08x}"
                         );
+                        // second level, as the renderers nest handles: a
+                        // narrower box on the (possibly cached) child handle,
+                        // its trace, the grandchild's float-slice value
+                        let narrow = |v: f32| {
+                            if v.is_finite() && v.abs() < 1e30 {
+                                Interval::new(v - 0.125, v + 0.125)
+                            } else {
+                                Interval::from(v)
+                            }
+                        };
+                        // (the handle documents that it keeps the parent when
+                        // the simplified shape is not shorter; the reference
+                        // follows the same rule)
+                        let fsub = if fsub.size() < fshape.size() { fsub } else { fshape.clone() };
+                        let (iv2, tr2) = ie
+                            .eval_with_vars(sub.i_tape(&mut tstore), narrow(x), narrow(y), narrow(z), &vars)
+                            .map_err(|e| Fail::new("eval-error", format!("{e:?}")))?;
+                        let tr2 = tr2.cloned();
+                        let fit = fsub.interval_tape(Default::default());
+                        let mut fie2 = Shape::<F>::new_interval_eval();
+                        let (fiv2, ftr2) = fie2
+                            .eval_with_vars(&fit, narrow(x), narrow(y), narrow(z), &vars)
+                            .unwrap();
+                        ensure!(
+                            nb(iv2.lower()) == nb(fiv2.lower())
+                                && nb(iv2.upper()) == nb(fiv2.upper())
+                                && tr2.as_ref().map(|t| t.as_slice().to_vec())
+                                    == ftr2.map(|t| t.as_slice().to_vec()),
+                            "reuse-changes-eval",
+                            "step {step}: nested RenderHandle interval eval differs from fresh objects"
+                        );
+                        if let Some(tr2) = tr2 {
+                            let sub2 = sub.simplify(&tr2, &mut ws, &mut fstore, &mut tstore);
+                            let out = fe
+                                .eval_with_vars(sub2.f_tape(&mut tstore), &[x], &[y], &[z], &vars)
+                                .map_err(|e| Fail::new("eval-error", format!("{e:?}")))?;
+                            let got = nb(out[0]);
+                            let mut fws2 = Default::default();
+                            let fsub2 = fsub
+                                .simplify(&tr2, Default::default(), &mut fws2)
+                                .map_err(|e| Fail::new("simplify-error", format!("{e:?}")))?;
+                            let mut ffe2 = Shape::<F>::new_float_slice_eval();
+                            let ft2 = fsub2.float_slice_tape(Default::default());
+                            let want =
+                                nb(ffe2.eval_with_vars(&ft2, &[x], &[y], &[z], &vars).unwrap()[0]);
+                            cx.ev.count("render_handle_nested_comparisons");
+                            ensure!(
+                                got == want,
+                                "reuse-changes-eval",
+                                "step {step}: nested RenderHandle float-slice eval {got:08x} vs fresh {want:08x}"
+                            );
+                        }
                     }
                 }
                 rh.recycle(&mut fstore, &mut tstore);
